@@ -1,2 +1,841 @@
-// Package c17: (not built yet)
+// Package c17: legacy (Excel-style) expression migration preserves meaning.
 package c17
+
+import (
+	"encoding/json"
+	"fmt"
+	"strings"
+	"time"
+
+	"github.com/nyaruka/gocommon/dates"
+	"github.com/nyaruka/goflow/envs"
+	"github.com/nyaruka/goflow/excellent"
+	"github.com/nyaruka/goflow/excellent/types"
+	"github.com/nyaruka/goflow/flows/definition/legacy/expressions"
+	"github.com/shopspring/decimal"
+	"verif/mc"
+)
+
+var (
+	env       envs.Environment
+	engineCtx *types.XObject
+	evaluator = excellent.NewEvaluator()
+	topLevels []string
+)
+
+func setup() {
+	dates.SetNowFunc(dates.NewFixedNow(fixedNow))
+	env = envs.NewBuilder().Build()
+	obj := func(m map[string]types.XValue) *types.XObject { return types.NewXObject(m) }
+	// the migrated names of the legacy references in refContext, bound to the same values
+	engineCtx = obj(map[string]types.XValue{
+		"fields":       obj(map[string]types.XValue{"age": types.NewXNumberFromInt(7)}),
+		"legacy_extra": obj(map[string]types.XValue{"s": types.NewXText("k1 k2 k3")}),
+		"results": obj(map[string]types.XValue{"num": obj(map[string]types.XValue{
+			"__default__": types.NewXNumberFromInt(4), "value": types.NewXNumberFromInt(4)})}),
+		"contact": obj(map[string]types.XValue{"__default__": types.NewXText("Bob Smith"), "name": types.NewXText("Bob Smith")}),
+		"input":   obj(map[string]types.XValue{"__default__": types.NewXText("hello"), "text": types.NewXText("hello")}),
+		"urns":    obj(map[string]types.XValue{}),
+		"parent":  obj(map[string]types.XValue{}),
+		"child":   obj(map[string]types.XValue{}),
+		"run":     obj(map[string]types.XValue{}),
+	})
+	topLevels = engineCtx.Properties()
+}
+
+// engRes is what the real code makes of one legacy expression: MigrateTemplate, then the
+// engine's scanner, parser and evaluator on the migrated template.
+type engRes struct {
+	Symptom  string // "" (a value) | migration-error | not-an-expression | unparseable | error
+	Migrated string
+	V        types.XValue
+	Detail   string
+}
+
+var engCache = map[string]*engRes{}
+
+func engineEval(exprText string) *engRes {
+	if r, ok := engCache[exprText]; ok {
+		return r
+	}
+	r := engineEvalTemplate("@("+exprText+")", true)
+	if len(engCache) > 300000 {
+		engCache = map[string]*engRes{}
+	}
+	engCache[exprText] = r
+	return r
+}
+
+// engineEvalTemplate migrates and evaluates a legacy template that consists of exactly one
+// expression (single = true), requiring that the migrated template is again exactly one
+// expression that the engine's parser accepts.
+func engineEvalTemplate(legacyTemplate string, single bool) *engRes {
+	r := &engRes{}
+	var merr error
+	if p := mc.Guard(func() { r.Migrated, merr = expressions.MigrateTemplate(legacyTemplate, nil) }); p != "" {
+		r.Symptom, r.Detail = "panic", p
+		return r
+	}
+	if merr != nil {
+		r.Symptom, r.Detail = "migration-error", merr.Error()
+		return r
+	}
+	if r.Migrated == "" && legacyTemplate == `@("")` {
+		// the empty literal is migrated to the empty template, which evaluates to the empty text
+		r.V = types.XTextEmpty
+		return r
+	}
+	var exprs []string
+	body := false
+	excellent.VisitTemplate(r.Migrated, topLevels, false, func(tt excellent.XTokenType, tok string) error {
+		switch tt {
+		case excellent.BODY:
+			body = true
+		case excellent.IDENTIFIER, excellent.EXPRESSION:
+			exprs = append(exprs, tok)
+		}
+		return nil
+	})
+	if len(exprs) != 1 || body {
+		r.Symptom = "not-an-expression"
+		r.Detail = fmt.Sprintf("the engine's scanner finds %d expressions (body text: %v) in the migrated template", len(exprs), body)
+		return r
+	}
+	if _, err := excellent.Parse(exprs[0], nil); err != nil {
+		r.Symptom, r.Detail = "unparseable", err.Error()
+		return r
+	}
+	var v types.XValue
+	if p := mc.Guard(func() { v, _, _ = evaluator.TemplateValue(env, engineCtx, r.Migrated) }); p != "" {
+		r.Symptom, r.Detail = "panic", p
+		return r
+	}
+	r.V = v
+	if types.IsXError(v) {
+		r.Symptom, r.Detail = "error", v.(error).Error()
+	}
+	return r
+}
+
+func render(v types.XValue) string {
+	if v == nil {
+		return "<nil>"
+	}
+	t, xerr := types.ToXText(env, v)
+	if xerr != nil {
+		return "<" + xerr.Error() + ">"
+	}
+	return fmt.Sprintf("%s %q", strings.TrimPrefix(fmt.Sprintf("%T", v), "*types."), t.Native())
+}
+
+func (v Val) String() string {
+	switch v.T {
+	case 'N':
+		if v.Approx {
+			return fmt.Sprintf("number ~%g", v.F)
+		}
+		return "number " + v.N.String()
+	case 'S':
+		return fmt.Sprintf("text %q", v.S)
+	case 'B':
+		return fmt.Sprintf("boolean %v", v.B)
+	case 'D':
+		if v.HasTod {
+			return "datetime " + v.D.Format("2006-01-02 15:04:05")
+		}
+		return "date " + v.D.Format("2006-01-02")
+	case 'T':
+		return fmt.Sprintf("time %02d:%02d:%02d", v.H, v.M, v.Sec)
+	}
+	return "?"
+}
+
+// agree: does the engine value denote the reference value? Numbers may come back as numeric text
+// (format_date(x, "YYYY")), text must render equal, booleans must be booleans, dates are compared as
+// calendar values in the (UTC) environment.
+func agree(rv Val, x types.XValue) bool {
+	switch rv.T {
+	case 'N':
+		switch x.(type) {
+		case *types.XNumber, *types.XText:
+		default:
+			return false
+		}
+		n, xerr := types.ToXNumber(env, x)
+		if xerr != nil {
+			return false
+		}
+		if rv.Approx {
+			f := n.Native().InexactFloat64()
+			d := f - rv.F
+			if d < 0 {
+				d = -d
+			}
+			m := rv.F
+			if m < 0 {
+				m = -m
+			}
+			if m < 1 {
+				m = 1
+			}
+			return d <= 1e-6*m
+		}
+		return n.Native().Equal(rv.N)
+	case 'S':
+		switch x.(type) {
+		case *types.XText, *types.XNumber:
+		default:
+			return false
+		}
+		t, xerr := types.ToXText(env, x)
+		return xerr == nil && t.Native() == rv.S
+	case 'B':
+		b, ok := x.(*types.XBoolean)
+		return ok && b.Native() == rv.B
+	case 'D':
+		switch x.(type) {
+		case *types.XDate, *types.XDateTime, *types.XText:
+		default:
+			return false
+		}
+		dt, xerr := types.ToXDateTime(env, x)
+		if xerr != nil {
+			return false
+		}
+		t := dt.Native().In(time.UTC)
+		if t.Year() != rv.D.Year() || t.Month() != rv.D.Month() || t.Day() != rv.D.Day() {
+			return false
+		}
+		if rv.HasTod {
+			return t.Hour() == rv.D.Hour() && t.Minute() == rv.D.Minute() && t.Second() == rv.D.Second()
+		}
+		return t.Hour() == 0 && t.Minute() == 0 && t.Second() == 0
+	case 'T':
+		tm, ok := x.(*types.XTime)
+		if !ok {
+			return false
+		}
+		return tm.Native().Hour == rv.H && tm.Native().Minute == rv.M && tm.Native().Second == rv.Sec
+	}
+	return false
+}
+
+// literalOf writes an engine value back as a legacy expression that denotes it (the lit() of the
+// compositionality oracle); ok = false when the value has no exact, defect-free literal form.
+func literalOf(x types.XValue) (*E, bool) {
+	switch v := x.(type) {
+	case *types.XNumber:
+		d := v.Native()
+		if d.NumDigits() > 12 || d.Exponent() < -10 {
+			return nil, false
+		}
+		s := d.Abs().String()
+		if strings.ContainsAny(s, "eE") {
+			return nil, false
+		}
+		if d.IsNegative() {
+			return neg(num(s)), true
+		}
+		return num(s), true
+	case *types.XText:
+		s := v.Native()
+		if strings.ContainsAny(s, "\\\n\r\t") || len(s) > 200 {
+			return nil, false
+		}
+		return str(`"` + strings.ReplaceAll(s, `"`, `""`) + `"`), true
+	case *types.XBoolean:
+		if v.Native() {
+			return boolean("TRUE"), true
+		}
+		return boolean("FALSE"), true
+	case *types.XDate:
+		d := v.Native()
+		return dateLit(d.Year, int(d.Month), d.Day), true
+	case *types.XDateTime:
+		t := v.Native().In(time.UTC)
+		if t.Hour() != 0 || t.Minute() != 0 || t.Second() != 0 || t.Nanosecond() != 0 {
+			return nil, false
+		}
+		return dateLit(t.Year(), int(t.Month()), t.Day()), true
+	case *types.XTime:
+		t := v.Native()
+		if t.Nanos != 0 {
+			return nil, false
+		}
+		return call("TIME", num(fmt.Sprint(t.Hour)), num(fmt.Sprint(t.Minute)), num(fmt.Sprint(t.Second))), true
+	}
+	return nil, false
+}
+
+func dateLit(y, m, d int) *E {
+	return call("DATE", num(fmt.Sprint(y)), num(fmt.Sprint(m)), num(fmt.Sprint(d)))
+}
+
+// sameEngineValue compares two engine results for the compositionality oracle.
+func sameEngineValue(a, b *engRes) bool {
+	if a.Symptom != b.Symptom {
+		return false
+	}
+	if a.Symptom != "" {
+		return true
+	}
+	an, aIsN := a.V.(*types.XNumber)
+	bn, bIsN := b.V.(*types.XNumber)
+	if aIsN && bIsN {
+		if an.Native().Equal(bn.Native()) {
+			return true
+		}
+		x, y := an.Native().InexactFloat64(), bn.Native().InexactFloat64()
+		return closeTo(x, y) || closeRel(x, y, 1e-9)
+	}
+	_, aIsB := a.V.(*types.XBoolean)
+	_, bIsB := b.V.(*types.XBoolean)
+	if aIsB != bIsB {
+		return false
+	}
+	// dates, datetimes and their renderings are compared as instants where both convert
+	if isDateLike(a.V) || isDateLike(b.V) {
+		ad, e1 := types.ToXDateTime(env, a.V)
+		bd, e2 := types.ToXDateTime(env, b.V)
+		if e1 == nil && e2 == nil {
+			return ad.Native().Equal(bd.Native())
+		}
+		return false
+	}
+	at, e1 := types.ToXText(env, a.V)
+	bt, e2 := types.ToXText(env, b.V)
+	return e1 == nil && e2 == nil && at.Native() == bt.Native()
+}
+
+func closeRel(x, y, tol float64) bool {
+	d := x - y
+	if d < 0 {
+		d = -d
+	}
+	m := x
+	if m < 0 {
+		m = -m
+	}
+	if m < 1 {
+		m = 1
+	}
+	return d <= tol*m
+}
+
+func isDateLike(v types.XValue) bool {
+	switch v.(type) {
+	case *types.XDate, *types.XDateTime:
+		return true
+	}
+	return false
+}
+
+// verdict on one expression (standalone)
+type verdict struct {
+	Fail    bool
+	Symptom string // wrong-value | error | unparseable | not-an-expression | migration-error | panic | not-compositional
+	By      string // reference | compositional | parse
+	Decided bool   // at least one oracle applied
+	Detail  string
+	RefOOD  string
+}
+
+var verdictCache = map[string]*verdict{}
+
+func verdictOf(e *E) *verdict {
+	text := e.Text()
+	if v, ok := verdictCache[text]; ok {
+		return v
+	}
+	v := computeVerdict(e, text)
+	if len(verdictCache) > 300000 {
+		verdictCache = map[string]*verdict{}
+	}
+	verdictCache[text] = v
+	return v
+}
+
+func computeVerdict(e *E, text string) *verdict {
+	v := &verdict{}
+	er := engineEval(text)
+	switch er.Symptom {
+	case "migration-error", "not-an-expression", "unparseable", "panic":
+		// "every expression parses" needs no reference value
+		v.Fail, v.Symptom, v.By, v.Decided = true, er.Symptom, "parse", true
+		v.Detail = fmt.Sprintf("legacy @(%s)\nmigrated: %s\n%s", text, er.Migrated, er.Detail)
+		return v
+	}
+	rv, o := refEval(e)
+	v.RefOOD = string(o)
+	if o == "" {
+		v.Decided = true
+		if er.Symptom == "error" {
+			v.Fail, v.Symptom, v.By = true, "error", "reference"
+			v.Detail = fmt.Sprintf("legacy @(%s) denotes %s\nmigrated: %s\nevaluates to an error: %s", text, rv, er.Migrated, er.Detail)
+			return v
+		}
+		if !agree(rv, er.V) {
+			v.Fail, v.Symptom, v.By = true, "wrong-value", "reference"
+			v.Detail = fmt.Sprintf("legacy @(%s) denotes %s\nmigrated: %s\nevaluates to %s", text, rv, er.Migrated, render(er.V))
+			return v
+		}
+	}
+	// compositionality: replacing the nested operand by a literal of its (engine) value must not
+	// change the value of the whole
+	pos, child := nonLeafChild(e)
+	if child != nil {
+		cr := engineEval(child.Text())
+		if cr.Symptom == "" {
+			if lit, ok := literalOf(cr.V); ok {
+				variant := e.clone()
+				variant.A[pos] = lit
+				if fitsBare(variant, pos, lit) {
+					vr := engineEval(variant.Text())
+					v.Decided = true
+					if !sameEngineValue(er, vr) {
+						v.Fail, v.Symptom, v.By = true, "not-compositional", "compositional"
+						if er.Symptom == "error" {
+							v.Symptom = "error"
+						}
+						v.Detail = fmt.Sprintf("legacy @(%s)\nmigrated: %s = %s %s\nbut its operand @(%s) alone evaluates to %s, and with that value written as a literal, @(%s)\nmigrated: %s = %s %s",
+							text, er.Migrated, render(er.V), er.Detail, child.Text(), render(cr.V), variant.Text(), vr.Migrated, render(vr.V), vr.Detail)
+						return v
+					}
+				}
+			}
+		}
+	}
+	return v
+}
+
+// ---- classification of a failing case into a root-cause signature ---------------------------
+
+func mapStrLeaves(e *E, f func(src string) string) *E {
+	c := &E{K: e.K, V: e.V}
+	if e.K == "str" {
+		c.V = f(e.V)
+	}
+	for _, a := range e.A {
+		c.A = append(c.A, mapStrLeaves(a, f))
+	}
+	return c
+}
+
+func anyStrLeaf(e *E, pred func(src string) bool) bool {
+	if e.K == "str" && pred(e.V) {
+		return true
+	}
+	for _, a := range e.A {
+		if anyStrLeaf(a, pred) {
+			return true
+		}
+	}
+	return false
+}
+
+// hasTopLevelOperator: does the migrated expression text carry a binary operator or leading minus
+// outside any parentheses, brackets and text literals?
+func hasTopLevelOperator(migratedTemplate string) bool {
+	s := strings.TrimPrefix(migratedTemplate, "@")
+	if strings.HasPrefix(s, "(") && strings.HasSuffix(s, ")") {
+		s = s[1 : len(s)-1]
+	} else {
+		return false
+	}
+	depth := 0
+	inStr := false
+	for i := 0; i < len(s); i++ {
+		ch := s[i]
+		if inStr {
+			if ch == '\\' {
+				i++
+			} else if ch == '"' {
+				inStr = false
+			}
+			continue
+		}
+		switch ch {
+		case '"':
+			inStr = true
+		case '(', '[':
+			depth++
+		case ')', ']':
+			depth--
+		case '+', '-', '*', '/', '^', '&', '=', '<', '>', '!':
+			if depth == 0 {
+				return true
+			}
+		}
+	}
+	return false
+}
+
+func outerClass(e *E) string {
+	if e.K == "bin" {
+		return opClass(e.V)
+	}
+	return e.construct()
+}
+
+// signature finds the deepest failing expression of the chain below root and names the cause.
+func signature(root *E) (key string, culprit *E, v *verdict) {
+	chain := []*E{root}
+	for {
+		_, ch := nonLeafChild(chain[len(chain)-1])
+		if ch == nil {
+			break
+		}
+		chain = append(chain, ch)
+	}
+	ci := 0
+	for i := len(chain) - 1; i >= 0; i-- {
+		if verdictOf(chain[i]).Fail {
+			ci = i
+			break
+		}
+	}
+	x := chain[ci]
+	v = verdictOf(x)
+	sym := v.Symptom
+
+	// string literal forms
+	if anyStrLeaf(x, func(s string) bool { return strings.Contains(s, `\`) }) {
+		y := mapStrLeaves(x, func(s string) string { return strings.ReplaceAll(s, `\`, `/`) })
+		if !verdictOf(y).Fail {
+			return "literal:backslash-unescaped", x, v
+		}
+	}
+	if anyStrLeaf(x, func(s string) bool { return len(s) > 2 && strings.Contains(s[1:len(s)-1], `""`) }) {
+		y := mapStrLeaves(x, func(s string) string { return `"` + strings.ReplaceAll(s[1:len(s)-1], `""`, `'`) + `"` })
+		if !verdictOf(y).Fail {
+			return "literal:doubled-quote:" + sym, x, v
+		}
+	}
+
+	pos, child := nonLeafChild(x)
+	if child == nil {
+		return "value:" + x.construct() + ":" + sym, x, v
+	}
+	posName := fmt.Sprintf("arg%d", pos+1)
+	if x.K == "bin" {
+		posName = []string{"left", "right"}[pos]
+	} else if x.K == "neg" || x.K == "par" {
+		posName = "operand"
+	}
+	if x.K == "par" {
+		return "nesting:parentheses:" + child.construct() + ":" + sym, x, v
+	}
+	if child.K == "par" {
+		return "nesting:" + outerClass(x) + ":" + posName + ":parenthesised-" + child.A[0].construct() + ":" + sym, x, v
+	}
+	// does putting the operand in parentheses (in the legacy source) repair it, and does the
+	// operand's own migration carry a bare operator? then grouping was lost in an expansion
+	wrapped := x.clone()
+	wrapped.A[pos] = par(wrapped.A[pos])
+	if !verdictOf(wrapped).Fail && hasTopLevelOperator(engineEval(child.Text()).Migrated) {
+		switch {
+		case x.K == "call":
+			return "expansion:" + x.construct() + ":param-has-looser-operator", x, v
+		case child.K == "call":
+			return "expansion:" + child.construct() + ":under-tighter-operator", x, v
+		default:
+			return "expansion:" + x.construct() + ":operand-has-looser-operator", x, v
+		}
+	}
+	return "nesting:" + outerClass(x) + ":" + posName + ":" + child.construct() + ":" + sym, x, v
+}
+
+// ---- replay ---------------------------------------------------------------------------------
+
+type replay struct {
+	Kind     string `json:"kind"` // expr | template
+	Expr     *E     `json:"expr,omitempty"`
+	Text     string `json:"text,omitempty"`
+	Template *tcase `json:"template,omitempty"`
+}
+
+func describeExpr(root *E) (string, bool) {
+	v := verdictOf(root)
+	if !v.Fail {
+		rv, o := refEval(root)
+		er := engineEval(root.Text())
+		return fmt.Sprintf("legacy @(%s)\nmigrated: %s\nengine: %s %s\nreference: %s %s\nproperty holds on this case", root.Text(), er.Migrated, render(er.V), er.Detail, rv, o), false
+	}
+	key, culprit, cv := signature(root)
+	return fmt.Sprintf("key=%s\ncase: @(%s)\nsmallest failing sub-expression: @(%s) [%s, decided by the %s oracle]\n%s", key, root.Text(), culprit.Text(), cv.Symptom, cv.By, cv.Detail), true
+}
+
+func replayFn(c *mc.Ctx, raw json.RawMessage) (string, bool) {
+	setup()
+	var rp replay
+	if err := json.Unmarshal(raw, &rp); err != nil {
+		return "bad replay: " + err.Error(), false
+	}
+	switch rp.Kind {
+	case "expr":
+		if sx, ok := parseLegacy(rp.Expr.Text()); !ok || sx != rp.Expr.Sexp() {
+			return "harness: the replayed tree does not print to text the legacy grammar parses back to it", true
+		}
+		return describeExpr(rp.Expr)
+	case "template":
+		p := checkTemplate(rp.Template)
+		if p == nil {
+			return "template " + rp.Template.text() + ": property holds", false
+		}
+		return p.key + "\n" + p.what, true
+	}
+	return "unknown replay kind", false
+}
+
+// ---- run ------------------------------------------------------------------------------------
+
+func checkExpr(c *mc.Ctx, root *E, space string) {
+	text := root.Text()
+	c.Inc("evaluations")
+	c.Inc("expressions_" + space)
+	sx, ok := parseLegacy(text)
+	if !ok || sx != root.Sexp() {
+		c.Violation("harness:generated-text-does-not-parse-back", fmt.Sprintf("generated @(%s): tree %s, legacy parser: %s (ok=%v)", text, root.Sexp(), sx, ok), replay{Kind: "expr", Expr: root})
+		return
+	}
+	v := verdictOf(root)
+	if v.Decided {
+		c.Inc("distinct_nontrivial")
+	} else {
+		c.Inc("undecided_out_of_reference_domain")
+	}
+	if v.RefOOD == "" {
+		c.Inc("decided_by_reference")
+	}
+	er := engineEval(text)
+	m := er.Migrated
+	for _, f := range []string{"legacy_add(", "datetime_add(", "replace_time(", "text_slice(", "format_date(", " - 1", "\\\""} {
+		if strings.Contains(m, f) {
+			c.Fact("migrated_contains:" + f)
+		}
+	}
+	if !v.Fail {
+		oc := "agrees"
+		if er.V != nil {
+			oc += ":" + strings.TrimPrefix(fmt.Sprintf("%T", er.V), "*types.")
+		}
+		if v.RefOOD != "" {
+			oc += ":reference-out-of-domain"
+			if !v.Decided {
+				oc = "undecided:" + er.Symptom
+			}
+		}
+		c.Outcome(oc)
+		if c.WantSample() && v.RefOOD == "" && depthOf(root) >= 2 && strings.Contains(m, "legacy_add") {
+			rv, _ := refEval(root)
+			c.Sample(map[string]any{"legacy": "@(" + text + ")", "migrated": m, "engine": render(er.V), "reference": rv.String()})
+		}
+		return
+	}
+	key, culprit, cv := signature(root)
+	c.Outcome("violates:" + cv.Symptom)
+	c.Violation(key, fmt.Sprintf("case @(%s); smallest failing sub-expression @(%s) [%s, %s oracle]\n%s", text, culprit.Text(), cv.Symptom, cv.By, cv.Detail), replay{Kind: "expr", Expr: root})
+}
+
+func depthOf(e *E) int {
+	if isAtomicLeaf(e) {
+		return 0
+	}
+	d := 0
+	for _, a := range e.A {
+		if x := depthOf(a); x > d {
+			d = x
+		}
+	}
+	if e.K == "par" {
+		return d
+	}
+	return d + 1
+}
+
+func run(c *mc.Ctx) {
+	setup()
+	maxDepth := 3
+	fullRotDepth := 2 // all rotations up to this depth, rotation 0 beyond
+	if c.Thorough() {
+		fullRotDepth = 3
+	}
+	idx := 0
+	sh := &shaper{}
+	// (1) nesting space
+	for depth := 1; depth <= maxDepth; depth++ {
+		for _, t := range resultTypes {
+			for _, shape := range sh.shapes(t, depth) {
+				nrot := 1
+				if depth <= fullRotDepth {
+					nrot = rotations
+				}
+				for r := 0; r < nrot; r++ {
+					idx++
+					if !c.Mine(idx) {
+						continue
+					}
+					if idx%512 == 0 && c.Expired() {
+						c.Cap(fmt.Sprintf("time budget reached in the nesting space at depth %d; all smaller depths were covered completely", depth))
+						return
+					}
+					root := fill(shape, r)
+					checkExpr(c, root, fmt.Sprintf("depth%d", depth))
+					recordCoverage(c, root, depth)
+				}
+			}
+		}
+	}
+	// (2) string literal forms: every form alone, in every text position of every construct, and
+	// all ordered pairs under & / CONCATENATE / =
+	for _, lf := range literalForms {
+		idx++
+		if c.Mine(idx) {
+			checkExpr(c, str(lf), "literals")
+			noteLiteral(c, lf)
+		}
+		for ci := range constructs {
+			cn := &constructs[ci]
+			for p := 0; p < len(cn.args); p++ {
+				if cn.args[p] != 'S' && cn.args[p] != 'A' && cn.args[p] != 'F' {
+					continue
+				}
+				idx++
+				if !c.Mine(idx) {
+					continue
+				}
+				a := make([]*E, len(cn.args))
+				for i := range a {
+					a[i] = leafOf(cn.args[i])
+				}
+				root := fill(cn.build(a), 0)
+				root.A[p] = str(lf)
+				checkExpr(c, root, "literals")
+			}
+		}
+		for _, lf2 := range literalForms {
+			for _, mk := range []func(a, b *E) *E{
+				func(a, b *E) *E { return bin("&", a, b) },
+				func(a, b *E) *E { return call("CONCATENATE", a, b) },
+				func(a, b *E) *E { return bin("=", a, b) },
+			} {
+				idx++
+				if c.Mine(idx) {
+					checkExpr(c, mk(str(lf), str(lf2)), "literals")
+				}
+			}
+		}
+	}
+	// (3) templates: text around and between expressions
+	for _, tc := range templateCases() {
+		idx++
+		if !c.Mine(idx) {
+			continue
+		}
+		c.Inc("evaluations")
+		c.Inc("templates")
+		c.Inc("distinct_nontrivial")
+		if p := checkTemplate(tc); p != nil {
+			c.Outcome("violates:template")
+			c.Violation(p.key, p.what, replay{Kind: "template", Template: tc})
+		} else {
+			c.Outcome("agrees:template")
+			if strings.Contains(tc.text(), "@@") {
+				c.Fact("template_with_escaped_at")
+			}
+		}
+	}
+}
+
+func noteLiteral(c *mc.Ctx, lf string) {
+	if strings.Contains(lf, `\`) {
+		c.Fact("literal_with_backslash")
+	}
+	if len(lf) > 2 && strings.Contains(lf[1:len(lf)-1], `""`) {
+		c.Fact("literal_with_doubled_quote")
+	}
+}
+
+func recordCoverage(c *mc.Ctx, root *E, depth int) {
+	if depth < 2 {
+		return
+	}
+	pos, child := nonLeafChild(root)
+	if child == nil {
+		return
+	}
+	inner := child
+	if inner.K == "par" {
+		inner = inner.A[0]
+		c.Fact("parenthesised_operand")
+	}
+	if root.K == "call" {
+		c.Fact(fmt.Sprintf("nested:%s:arg%d", root.construct(), pos+1))
+	} else if root.K == "bin" {
+		c.Fact(fmt.Sprintf("under:%s:%s:%s", root.V, []string{"left", "right"}[pos], inner.construct()))
+	} else if root.K == "neg" {
+		c.Fact("under:neg:" + inner.construct())
+	}
+}
+
+func guards(r *mc.Result, tier string) []string {
+	var f []string
+	need := func(cond bool, msg string) {
+		if !cond {
+			f = append(f, msg)
+		}
+	}
+	need(r.Counters["expressions_depth2"] >= 5000, "fewer than 5000 depth-2 expressions")
+	need(r.Counters["expressions_depth3"] >= 50000, "fewer than 50000 depth-3 expressions")
+	need(r.Counters["expressions_literals"] >= 1000, "fewer than 1000 literal cases")
+	need(r.Counters["templates"] >= 500, "fewer than 500 template cases")
+	need(r.Counters["decided_by_reference"]*2 >= r.Counters["evaluations"], "the reference model decided fewer than half of the cases")
+	need(r.Counters["distinct_nontrivial"]*10 >= r.Counters["evaluations"]*8, "fewer than 80% of the cases were decided by some oracle")
+	for _, fact := range []string{"literal_with_backslash", "literal_with_doubled_quote", "parenthesised_operand", "template_with_escaped_at",
+		"migrated_contains:legacy_add(", "migrated_contains:datetime_add(", "migrated_contains:replace_time(", "migrated_contains:text_slice(", "migrated_contains: - 1", "migrated_contains:\\\""} {
+		need(r.Facts[fact] > 0, "never observed: "+fact)
+	}
+	// every expanding function under every operator on both sides, every function nested in every argument
+	for _, fn := range []string{"sum", "power", "concatenate", "exp", "weekday", "right", "left", "word", "field", "word_slice", "days", "if"} {
+		seen := false
+		for k := range r.Facts {
+			if strings.HasPrefix(k, "nested:"+fn+":") {
+				seen = true
+			}
+		}
+		need(seen, "function never had a nested argument: "+fn)
+	}
+	for _, op := range []string{"+", "-", "*", "/", "^"} {
+		for _, side := range []string{"left", "right"} {
+			for _, fn := range []string{"sum", "power", "exp", "weekday"} {
+				need(r.Facts["under:"+op+":"+side+":"+fn] > 0, fmt.Sprintf("%s never stood on the %s of %s", fn, side, op))
+			}
+		}
+	}
+	need(r.Facts["under:=:left:concatenate"] > 0 && r.Facts["under:&:right:sum"] > 0 && r.Facts["under:neg:sum"] > 0, "missing operator/function combinations")
+	need(len(r.Outcomes) >= 4, "fewer than 4 distinct outcome classes")
+	return f
+}
+
+func init() {
+	mc.Register(&mc.Check{
+		ID:    "C17",
+		Level: "exploration",
+		Rule: "bounded exhaustive enumeration of legacy (Excellent1) expressions, each migrated by the real MigrateTemplate and evaluated by the real engine: (1) every chain of constructs of depth 1..3 " +
+			"(59 typed function signatures incl. SUM POWER CONCATENATE EXP LEFT RIGHT WORD WORD_SLICE FIELD WEEKDAY DAYS DATE TIME EDATE IF AND OR, the 11 binary operators, unary minus, date+-number, date+time) nested at every argument position of every other and on both sides of every operator, bare wherever the legacy grammar parses it as that operand and always also parenthesised, " +
+			"leaves from {2,3,10,contact.age | \"ab c\",\"q\"\"q\",\"w1 w2 w3 w4\",extra.s | TRUE,FALSE | literal dates and times} in 4 rotations (depth 3: 1 rotation in quick, 4 in thorough); (2) 21 string-literal forms (doubled quotes, backslashes, trailing backslash) alone, in every text position of every construct and all ordered pairs under & / CONCATENATE / =; " +
+			"(3) templates: 15 body texts (incl. @@, e-mail addresses, quotes, parentheses) before, between and after 1-2 expressions. A case is distinct by its text and counted in distinct_nontrivial when the legacy grammar parses it back to the generated tree and at least one oracle (reference model in its domain, or compositionality) decided it.",
+		Assumptions: []string{
+			"the legacy denotation is given by Excellent1.g4 (precedence, left associativity, \"\" as the only escape) and Excel-style function semantics, modelled only where uncontroversial (the reference answers out-of-domain elsewhere)",
+			"operands from a fixed alphabet, not all values; nesting depth <= 3 with one nested operand per level",
+			"environment: UTC, YYYY-MM-DD, clock pinned to 2020-03-10 14:15:16",
+			"format drift of the platform (TRUE vs true, date rendering) is not judged: values are compared by type class (number / text / boolean / calendar date)",
+		},
+		Run:    run,
+		Replay: replayFn,
+		Guards: guards,
+		Budget: map[string]time.Duration{"quick": 4 * time.Minute, "thorough": 20 * time.Minute},
+	})
+}
+
+var _ = decimal.Zero
